@@ -13,7 +13,7 @@ VARIABLES l
 Recs == ndJsonDeserialize(IOEnv.TRACE)
 Clauses == {"Returns", "SucceedsOrFailsAsSpecified", "FailureClassAndUnchanged", "AmountAsDefined", "UnitFromDesignatedList",
             "ApiAgrees", "ThereAndBack", "ViaThirdUnit", "StandardDefinition", "RecipeAmountsPreserved", "RecipeUnitsFromBestList",
-            "RecipeFailuresUnchangedAndReported"}
+            "RecipeFailuresUnchangedAndReported", "FitPreservesAmount"}
 Holds(c, r) ==
   CASE c = "Returns" -> (r.kind_rec = "model" => r.obs.st # "panic") /\ (r.kind_rec = "recipe" => r.st # "panic")
     [] c = "SucceedsOrFailsAsSpecified" -> (r.kind_rec = "model" /\ r.obs.st # "panic") => ((r.obs.st = "ok") <=> r.pred.ok)
@@ -26,6 +26,7 @@ Holds(c, r) ==
     [] c = "ThereAndBack" -> r.kind_rec = "bundled" => r.back_ok
     [] c = "ViaThirdUnit" -> r.kind_rec = "bundled" => r.via_ok
     [] c = "StandardDefinition" -> (r.kind_rec = "bundled" /\ r.has_std) => r.std_ok
+    [] c = "FitPreservesAmount" -> r.kind_rec = "fit" => r.preserved
     [] c = "RecipeAmountsPreserved" -> (r.kind_rec = "recipe" /\ r.st = "ok") => r.preserved
     [] c = "RecipeUnitsFromBestList" -> (r.kind_rec = "recipe" /\ r.st = "ok") => r.in_best
     [] c = "RecipeFailuresUnchangedAndReported" -> (r.kind_rec = "recipe" /\ r.st = "ok") => (r.unchanged_failures /\ r.errors = r.failures)
